@@ -12,7 +12,7 @@
 """
 from .. import panicinv as PI, parseprog as PP, mir as M, dflow as D
 
-LAYERS = ["lexparse", "checks", "format"]
+LAYERS = ["lexparse", "checks", "format", "cli_check"]
 
 
 def run(ctx, res):
